@@ -39,6 +39,7 @@ type DemuxCfg struct {
 	MaxSteps int     `json:"max_steps"`
 	YieldP   float64 `json:"yield_p"`
 	Binds    bool    `json:"mostly_bind_and_close,omitempty"` // C10: the workload is mostly open/close/reopen
+	Spoof    bool    `json:"spoofing,omitempty"`              // NIC 1 may send from addresses it does not own - which says nothing about what it receives
 }
 
 func (scDemux) GenCfg(rng *sim.Rand, tier, prop, variant string) json.RawMessage {
@@ -47,6 +48,7 @@ func (scDemux) GenCfg(rng *sim.Rand, tier, prop, variant string) json.RawMessage
 		c.YieldP = []float64{0.05, 0.3}[rng.Intn(2)]
 	}
 	c.Binds = prop == "C10"
+	c.Spoof = rng.Chance(0.15)
 	b, _ := json.Marshal(c)
 	return b
 }
@@ -851,7 +853,7 @@ func (w *dmWorld) apply(s Step) {
 	case "addr":
 		// remove or re-assign the second address of NIC 1 (not when the interface answers for
 		// unassigned addresses anyway: temporary endpoints then blur what 'assigned' means)
-		if w.cfg.Promisc || w.cfg.Subnet {
+		if w.cfg.Promisc || w.cfg.Subnet || w.cfg.Spoof {
 			break
 		}
 		x := dmLocal[2]
@@ -1017,6 +1019,24 @@ func (w *dmWorld) apply(s Step) {
 		case taken || (ra == sk.raddr && rp == sk.rport):
 			w.Probes["udp_connect_again_refused"]++ // (the identity is in use - by another socket or by this very one)
 		}
+	case "icmperr":
+		// a router reports "port unreachable" for a datagram this host never sent (the quoted source is not one
+		// of its addresses): it concerns no socket here - afterwards every socket still has nothing to report
+		src := tcpip.Address("\x0a\x00\x00\x63")
+		quoted := codec.IPv4([]byte(src), []byte(dmRAddr[s.B%3]), codec.ProtoUDP, 77, 64, false, false, 0, codec.EncodeUDP([]byte(src), []byte(dmRAddr[s.B%3]), dmPorts[s.A%3], dmRPort[s.B%3], []byte("payload!")))
+		w.ipid++
+		w.Take()
+		w.Inject(w.S.Link, ipv4.ProtocolNumber, codec.IPv4([]byte(dmRAddr[s.B%3]), []byte(dmLocal[1]), codec.ProtoICMP, w.ipid, 64, false, false, 0, codec.EncodeICMPv4(3, 3, 0, quoted[:28])), "", "", 0)
+		w.Probes["icmp_errors_about_foreign_datagrams"]++
+		for i, sk := range w.socks {
+			if sk.closed || sk.listener || sk.tcp || sk.fake != nil {
+				continue
+			}
+			if _, _, err := sk.ep.Read(nil); err != nil && err != tcpip.ErrWouldBlock && err != tcpip.ErrClosedForReceive {
+				w.demuxFail("control-message-to-wrong-socket", "an ICMP error about a datagram from % x:%d - not an address of this host - was reported to socket %d (bound % x:%d): Read returned %q", []byte(src), dmPorts[s.A%3], i, []byte(sk.laddr), sk.lport, err.String())
+			}
+		}
+		w.Take()
 	case "udp6":
 		// an IPv6 datagram for one of the ports: it reaches the dual-stack socket bound to the wildcard address on that
 		// port if there is one, and nobody else - in particular no socket whose binding covers IPv4 only
@@ -1099,6 +1119,9 @@ func (w *dmWorld) next() Step {
 	}
 	if r.Chance(0.03) {
 		return Step{Op: "udp6", A: r.Intn(3)}
+	}
+	if r.Chance(0.02) {
+		return Step{Op: "icmperr", A: r.Intn(3), B: r.Intn(3)}
 	}
 	for _, sk := range w.socks {
 		if !sk.closed && sk.reopen != nil && r.Chance(0.04) {
@@ -1294,6 +1317,10 @@ func (scDemux) Run(t *testing.T, prop string, seed uint64, cfgRaw json.RawMessag
 		}
 		if cfg.Promisc {
 			must(s.SetPromiscuousMode(1, true), "promiscuous")
+		}
+		if cfg.Spoof {
+			must(s.SetSpoofing(1, true), "spoofing")
+			w.Probes["spoofing_interfaces"]++
 		}
 		if cfg.Subnet {
 			sn, err := tcpip.NewSubnet("\x0a\x00\x00\x00", "\xff\xff\xff\x00")
